@@ -848,6 +848,10 @@ fn lower_tuple_like_pattern_helper<'db>(
                         ctx.diagnostics.report(stable_ptr, RefutablePattern),
                     ));
                 }
+                // The type could not be resolved, which was already reported.
+                TypeLongId::Missing(diag_added) => {
+                    return Err(LoweringFlowError::Failed(diag_added));
+                }
                 _ => unreachable!("Tuple-like pattern must be a tuple or fixed size array."),
             };
             let reqs = patterns
